@@ -595,8 +595,16 @@ RULE_ADDENDA_4 = {
     'C18': ' One case in ten applies a sum of three or more terms to NumPy data (eager and jit; the data must be left unmodified); a quarter of the other cases repeat the eager call on NumPy copies.',
     'C19': ' Options may hold a block-diagonal preconditioner; taking the inverse of a block-diagonal operator is an event; composites of two dense factors are reduced next to their own factors.',
 }
+RULE_ADDENDA_5 = {
+    'C03': ' The bilinear probe also compares the structure A.T(y) returns with the input space of A.',
+    'C06': ' A third of the 1-d lazy operands are normal operators P.T @ P + I of selections with repeated and negative indices.',
+    'C13': ' Every reshape case also reduces the lazy transpose (alone, after an identity) and applies (op.T @ op).reduce().',
+    'C15': ' A third of the cases reduce a chain holding a factory result as one item; a quarter build rotation products inside a jit whose arguments are the angle arrays.',
+    'C17': ' One coverage case in three uses a raster sampling (co-latitudes (n,1) against longitudes (1,m)).',
+    'C19': ' A quarter of the reduce events do arithmetic on the inverse instead (scaling, negation, difference).',
+}
 for _p, _t in RULE_ADDENDA.items():
-    PROPS[_p]['rule'] = PROPS[_p]['rule'] + _t + RULE_ADDENDA_4.get(_p, '')
+    PROPS[_p]['rule'] = PROPS[_p]['rule'] + _t + RULE_ADDENDA_4.get(_p, '') + RULE_ADDENDA_5.get(_p, '')
 for _p, _t in RULE_ADDENDA_4.items():
     if _p not in RULE_ADDENDA:
         PROPS[_p]['rule'] = PROPS[_p]['rule'] + _t
